@@ -56,6 +56,19 @@ CHECKS = {
         "every offset; bz2/lz4/zstd truncation not enumerated.",
         "DESIGN.md 4/C04",
     ),
+    "C08": (
+        "exploration",
+        "exhaustive enumeration of the finite comparison grammar on both engines + property-based mixed-stream "
+        "filtering through readers and rdump, oracle = context(False) / plain-Python reference filter",
+        "The whole table operator x operand position x 30 operand kinds x 7 boolean contexts x 2 engines is run "
+        "(about 7 000 rows) and must evaluate to context(False) without raising; helper functions with missing names "
+        "must equal the call without them; generated heterogeneous streams filtered through RecordStreamReader, "
+        "RecordReader, record_stream and rdump -s (both engines) must output exactly the records that have the field "
+        "and satisfy the condition, and later sources must still be read.",
+        "Nine listed known findings, all in the compiled engine (Python's membership and != protocol cannot be "
+        "intercepted by the sentinel); rows that hit them are counted in excluded_known.",
+        "DESIGN.md 4/C08",
+    ),
 }
 
 NOT_APPLICABLE = {}
